@@ -83,6 +83,48 @@ def run(rep, tier):
                 payload = dict(engine="bigindex", property="C13", shape=[H, W], ky=repr(ky), kx=repr(kx))
                 rep.violation(sig, "array of shape %dx%d indexed with [%r, %r]: got %s, the nested list gives %s" % (H, W, ky, kx, str(got)[:120], str(want)[:120]),
                               write_replay("C13", "bigindex", payload))
+    # coordinate lists: the elements at the listed (y, x) pairs, negative coordinates counted from the end, IndexError when a pair is
+    # off the array; the caller's list is not changed, so the SAME list object used on a second array of another shape reads the
+    # cells that list names there
+    import copy
+    import random
+    rnd = random.Random(7)
+    arrays = []
+    for (H, W) in [(3, 4), (4, 3), (2, 5), (5, 2), (1, 6), (6, 6)]:
+        L = [[1000 * H + y * W + x for x in range(W)] for y in range(H)]
+        arrays.append((H, W, L, IntArray2D([v for r in L for v in r], (H, W))))
+    for trial in range(60 if tier == "quick" else 600):
+        k = rnd.randrange(0, 6)
+        coords = [(rnd.randrange(-3, 4), rnd.randrange(-3, 4)) for _ in range(k)]
+        key = [tuple(c) for c in coords]           # the library asks for tuples
+        snap = copy.deepcopy(key)
+        for (H, W, L, a) in rnd.sample(arrays, 3):
+            rep.evaluations += 1
+            try:
+                want = []
+                for (y, x) in snap:
+                    if not (-H <= y < H and -W <= x < W):
+                        raise IndexError
+                    want.append(L[y][x])
+            except IndexError:
+                want = "IndexError"
+            try:
+                r = a[key]
+                got = list(r.data)
+            except IndexError:
+                got = "IndexError"
+            except Exception as e:
+                got = "%s: %s" % (type(e).__name__, e)
+            bad = None
+            if got != want:
+                bad = ("coordinate-list-elements", "array %dx%d indexed with the coordinate list %r: got %s, the nested list gives %s" % (H, W, snap, str(got)[:100], str(want)[:100]))
+            elif key != snap:
+                bad = ("coordinate-list-changed", "indexing a %dx%d array changed the caller's coordinate list from %r to %r" % (H, W, snap, key))
+            if bad and ("bigindex:" + bad[0]) not in seen:
+                seen.add("bigindex:" + bad[0])
+                rep.violation("bigindex:" + bad[0], bad[1], write_replay("C13", "bigindex", dict(engine="bigindex", property="C13", coords=repr(snap), shape=[H, W])))
+            if key != snap:
+                key = copy.deepcopy(snap)
     rep.coverage["large_arrays_indexed"] = [list(s) for s in shapes]
 
 
